@@ -19,7 +19,7 @@ POOLS = {
           127, 128, -128, -129, 255, 256, 32767, 32768, -32768, 65535, 65536, 2**31 - 1, 2**32],     # width boundaries
     "b": [True, False],
     "s": ["", "a", "b", "ab", "B", "é", "日本", "😀", " a", P49 + "a", P49 + "b", P49, "q" * 70, "a\x00", "a\x00b",
-          "None", "nan", "NaT", "Ł", "İ", "\x00", "\x00\x00", "a\x00bc", "a\x00bd", "C:\\temp", "tail\\", "x, y", "k: v"],      # spellings of other dtypes' missing values; code points >= U+0100
+          "None", "nan", "NaT", "Ł", "İ", "\x00", "\x00\x00", "a\x00bc", "a\x00bd", "C:\\temp", "tail\\", "x, y", "k: v", "\U0010ffff", "\U0010ffffa"],      # the highest code point is a character too      # spellings of other dtypes' missing values; code points >= U+0100
     "u": ["", "a", "b", "ab", "B", "é", "日本", " a", "None", "nan", "Ł"],
     "d": [None, "1970-01-01", "1969-12-31", "2020-12-31", "2021-01-03", "2024-02-29", "0001-01-01", "9999-12-31"],
     "t": [None, "1970-01-01T00:00:00.000001", "1969-12-31T23:59:59", "2020-12-31T12:00:00",
@@ -94,7 +94,7 @@ TWINS = {
     "i32": [-1, -2, 0], "i8": [-1, -2, 0], "d": [None, "1969-12-31", "1969-12-30"], "td": [None, -1, -2],
     "tn": [None, "1969-12-31T23:59:59.999999999", "1969-12-31T23:59:59.999999998"],
     # strings that any escaping of NULs has to keep apart: NUL vs U+0001 / U+0002, equal up to an embedded NUL
-    "s": ["", "a\x00", "a\x01\x01", "a\x01", "a\x01\x02", "a\x00b", "a\x00c", "a"],
+    "s": ["", "a\x00", "a\x01\x01", "a\x01", "a\x01\x02", "a\x00b", "a\x00c", "a", "\U0010ffff", "\U0010ffffa", ""],
     "t": [None, "1969-12-31T23:59:59.999999", "1969-12-31T23:59:59.999998"], "oi": [None, -1, -2],
 }
 
